@@ -78,6 +78,25 @@ def witnesses(tier, seed, std='gnu++17'):
                 rng.shuffle(o)
                 if std != 'gnu++14':   # the explicit-output form is provided for C++17 and later only (einsum_explicit.h)
                     W.append(mk(t, [list(L0), list(L1)], ext, out=o))
+    # wide extents: each index in turn gets an extent that is 1x, 2x, 3x, 5x, 7x the vector width of some ISA (and +-1 of it), the
+    # others stay small — the vectorised loops of the contraction kernels step by the vector width over one index of one operand
+    WIDE = {'f32': [12, 16, 20, 24, 28, 33, 48], 'f64': [6, 10, 12, 14, 17, 24, 40], 'i32': [12, 20, 24, 28, 48], 'i64': [6, 10, 12, 24]}
+    wk = 0
+    for (r0, r1) in ((1, 2), (2, 1), (2, 2), (3, 2), (2, 3), (3, 1), (1, 3)):
+        for (L0, L1) in patterns(r0, r1):
+            if len(set(L0)) < len(L0) or len(set(L1)) < len(L1) or not (set(L0) & set(L1)):
+                continue
+            labels = sorted(set(L0) | set(L1))
+            for l in labels:
+                wk += 1
+                if quick and r0 + r1 >= 5 and wk % 2:
+                    continue
+                t = ['f32', 'f64', 'i32', 'f32', 'f64', 'i64'][wk % 6]
+                w = WIDE[t][(wk // 6) % len(WIDE[t])]
+                ext = {x: (w if x == l else (2 if (x + wk) % 2 else 3)) for x in labels}
+                if prod([ext[x] for x in L0]) > 800 or prod([ext[x] for x in L1]) > 800:
+                    continue
+                W.append(mk(t, [list(L0), list(L1)], ext, api='einsum' if wk % 3 else 'contraction'))
     # single-tensor einsum (traces)
     for r in (2, 3, 4):
         for p in involution_partitions(r):
